@@ -304,8 +304,21 @@ class World:
             if self.res is not None:
                 self.res.excluded += 1
             return 'excluded'
+        # the very same text object first goes through the other members of the family: what one
+        # member did with a text must not leak into what another makes of it
+        family = self.ancestors(mi % len(self.mods))[:-1]
+        for anc in family:
+            sut.run(anc['module'], None, text, budget=diff.QUICK_BUDGET)
         got = diff.run_confirmed(rec['module'], entry, text)
         want = diff.run_confirmed(rec['flatmod'], entry, text)
+        for anc in family:
+            if anc.get('flatmod') is None:
+                continue
+            a = sut.run(anc['module'], None, text, budget=diff.QUICK_BUDGET)
+            b = sut.run(anc['flatmod'], None, text, budget=diff.QUICK_BUDGET)
+            if a != b and not (a[0] == 'FAIL' and b[0] == 'FAIL') and 'HANG' not in (a[0], b[0]):
+                self.fail('ancestor-after-derived:%s-vs-%s' % (a[0], b[0]), through=anc['desc'], after=rec['desc'], input=text,
+                          got=list(a), flattened=list(b))
         ref = None
         try:
             r = peg.Interp(rec['flat'], text).run_rule(rec['flat'].start_name() if entry is None else entry)
